@@ -27,7 +27,8 @@ claim('C08',
       'every query constraint and every atom attribute a z3 variable (one validity query per path); calc_labels on star '
       'environments with every bond order symbolic; SMARTS atom/bond texts assembled from solver-enumerated primitive '
       'choices parse to the documented constraints, texts outside the subset are rejected; stereo-marked queries against '
-      'every random-order spelling of the seed and of its stereoisomers.',
+      'every random-order spelling of the seed and of its stereoisomers; query atoms built by from_atom (source atom, requested '
+      'properties and image atom solver-chosen) match exactly the atoms sharing the requested properties.',
       'Bounded: constraint lists up to length 2 (quick) / 3 (thorough), ring sizes over {3,5,6}, listed element classes, '
       'SMARTS atoms with <= 2 primitive groups; the metal/non-metal partition and the primitive semantics are my reading of '
       'the documentation.',
@@ -140,7 +141,7 @@ claim('C17',
       'certified) equal my own simple-path enumeration keyed by the larger reading direction, with multiplicities and the cap; '
       'the folding arithmetic of linear_bit_set / morgan_bit_set is decided for every signed 64-bit hash as a bit-vector: each '
       'index < length, one per active bit, equal to the documented bit groups; Morgan identifiers equal my own iterated '
-      'neighbourhood hashing; every hash set / fingerprint is equal for every random-order spelling of the seeds.',
+      'neighbourhood hashing; every hash set / fingerprint / fragment-SMILES dictionary is equal for every random-order spelling of the seeds.',
       'Bounded: skeletons <= 5-6 atoms with 2-3 identifier values, length 2^1..2^12 (quick), seeds; CPython hash collisions '
       'outside; `set` in the fingerprint modules is replaced by a recorder in the folding harness.',
       'symbolic execution of the real fingerprint code (minisym): bit-vector validity queries for the folding, '
